@@ -27,7 +27,12 @@ TECHNIQUE = ("Coq proofs by case analysis + lia over the C-faithful model (NumPr
 RULE = ("one node in the shared tree text format followed by 1..40 accessor/mutator calls; nodes and arguments from boundary "
         "lattices (powers 2^31/2^32/2^53/2^63/2^64 +-1, +-1 ulp as doubles), random 64-bit patterns and composed strings "
         "(whitespace x sign x digits x tail); increment pairs = integer lattice squared + random; a case is non-trivial when "
-        "the implementation produced a complete observation; distinct = distinct script lines")
+        "the implementation produced a complete observation; distinct = distinct script lines.  Plus a small-scope block "
+        "ENUMERATED without the PRNG in both tiers: every edge node (ints, uints, doubles, strings whitespace x sign x digits x "
+        "tail, containers) x every accessor; every node kind x every setter x every edge argument followed by every accessor; "
+        "every (edge value, edge increment) pair followed by every accessor; every history of exactly 4 (thorough 5) increments "
+        "over 9 increments from 6 starts; every sequence of exactly 3 (thorough 4) operations over a 16-operation alphabet "
+        "from 8 node kinds")
 TRUSTED = ["Coq 8.16.1 kernel (coqc), no axioms (Print Assumptions: closed under the global context)",
            "extraction (ExtrOcamlBasic only) + ocaml/drv_num.ml glue",
            "harness/drv_num.c, jvtext.h, gcc -fsanitize=address,undefined,float-cast-overflow",
@@ -456,6 +461,85 @@ def emit(out, tail, node, ops, kindname):
         out.append((mkline(node, buf), {"kind": kindname}))
 
 
+# ------------------------------------------------------------------ small-scope exhaustive block
+SS_I64 = [0, 1, -1, I32MAX, I32MAX + 1, I32MIN, I32MIN - 1, 1 << 32, 1 << 53, (1 << 53) + 1, -(1 << 53) - 1, 1 << 62,
+          I64MAX - 1, I64MAX, I64MIN, I64MIN + 1]
+SS_U64 = [0, 1, 1 << 31, I64MAX - 1, I64MAX, I64MAX + 1, I64MAX + 2, (1 << 63) + (1 << 10) + 1, U64MAX - 1, U64MAX]
+SS_I32 = [0, 1, -1, I32MAX, I32MIN, 12345]
+SS_INC = [0, 1, -1, 2, I64MAX, I64MIN, I64MIN + 1, 1 << 62, -(1 << 62)]
+
+
+def ss_doubles():
+    d = jvtext.dbits
+    xs = [0.0, -0.0, 0.5, -0.5, 1.0, -1.0, 1.5, -1.5, 2147483647.0, 2147483647.5, 2147483648.0, 2147483649.0,
+          -2147483648.0, -2147483648.5, -2147483649.0, 4294967296.0, 9007199254740992.0, 1e19, -1e19, 1e300, -1e300]
+    out = [d(x) for x in xs]
+    for b in (B_2P63, B_2P63 | (1 << 63), B_2P64):       # 2^63, -2^63, 2^64 and their two neighbours
+        out += [b - 1, b, b + 1]
+    out += [1, (1 << 63) | 1, (1 << 52) - 1, 1 << 52,     # min/max subnormal, min normal
+            0x7fefffffffffffff, 0xffefffffffffffff, 0x7ff0000000000000, 0xfff0000000000000,
+            NANBITS, 0xfff8000000000000, 0x7ff0000000000001]
+    return out
+
+
+def ss_strings():
+    """strings of every shape: whitespace x sign x digits x tail, plus the strtod-only forms"""
+    ws = [b"", b" ", b"\t", b" \n"]
+    sg = [b"", b"+", b"-", b"+-"]
+    dg = [b"", b"0", b"5", b"2147483648", b"9223372036854775807", b"9223372036854775808", b"18446744073709551615",
+          b"18446744073709551616", b"99999999999999999999"]
+    tl = [b"", b"x", b".5", b"e3", b" ", b"\x009"]
+    out = [w + g + d + t for w in ws for g in sg for d in dg for t in tl]
+    out += [b"inf", b"-inf", b"nan", b"infinity", b"0x10", b"1e999", b"-1e999", b"1e-999", b"4.9e-324", b".5", b"5.", b".", b"1e", b"1e+5",
+            b"1.7976931348623157e308", b"1.8E+308", b"\x00", b"\xff9"]
+    return out
+
+
+def small_scope(tier):
+    """ENUMERATED cases (no PRNG): each alphabet element selects a different branch of the code.
+      S1 every edge node x every accessor
+      S2 every node kind x every setter with every edge argument, then every accessor
+      S3 every (edge value, edge increment) pair, then every accessor
+      S4 every history of exactly D4 increments over SS_INC (9) from 6 start values (prefixes are observed too)
+      S5 every sequence of exactly D5 operations over a 16-operation alphabet from 8 node kinds
+    quick: D4 = 4, D5 = 3; thorough: one step deeper, D4 = 5, D5 = 4."""
+    import itertools
+    d4, d5 = (4, 3) if tier == "quick" else (5, 4)
+    out = []
+
+    def add(node, ops, sub):
+        out.append((mkline(node, ops), {"kind": "small-scope", "sub": sub}))
+    dbls = ss_doubles()
+    nodes = [None, True, False, [], [("i", 1)], [[]], ("o", []), ("o", [(b"a", ("i", 1))])]
+    nodes += [("i", z) for z in SS_I64] + [("u", z) for z in SS_U64] + [("d", b, None) for b in dbls]
+    nodes += [("d", jvtext.dbits(1.5), b"1.5"), ("d", B_2P63, b"9223372036854775808.0")]
+    nodes += ss_strings()
+    for nd in nodes:                                                  # S1
+        add(nd, GETS, "get")
+        add(nd, GETS[::-1], "get")
+    setters = (["sl%d" % z for z in SS_I64] + ["su%d" % z for z in SS_U64] + ["si%d" % z for z in SS_I32]
+               + ["sd%016x" % b for b in dbls] + ["sb0", "sb1"])
+    kinds = [None, False, ("i", 0), ("u", 7), ("d", 0, None), ("d", jvtext.dbits(1.5), b"1.5"), b"12", [], ("o", [])]
+    for nd in kinds:                                                  # S2
+        for st in setters:
+            add(nd, [st] + GETS, "setget")
+    for (rep, vals) in (("i", SS_I64), ("u", SS_U64)):                # S3
+        for a in vals:
+            for k in SS_I64:
+                add(("i", 0), [("sl%d" if rep == "i" else "su%d") % a, "in%d" % k] + GETS, "incpair")
+    starts = [("i", 0), ("u", 0), ("i", I64MAX), ("u", I64MAX), ("u", U64MAX), ("i", I64MIN)]
+    for nd in starts:                                                 # S4
+        for seq in itertools.product(SS_INC, repeat=d4):
+            add(nd, ["in%d" % k for k in seq], "inchist")
+    alpha = GETS + ["sl-1", "sl%d" % I64MIN, "su%d" % U64MAX, "su0", "sd%016x" % B_2P63, "sd%016x" % NANBITS, "sb1",
+                    "si%d" % I32MAX, "in1", "in-1", "in%d" % I64MIN]
+    mixed = [None, False, ("i", 0), ("u", I64MAX), ("d", 0, None), ("d", jvtext.dbits(1.5), b"1.5"), b"12", []]
+    for nd in mixed:                                                  # S5
+        for seq in itertools.product(alpha, repeat=d5):
+            add(nd, list(seq), "ops")
+    return out
+
+
 def gen(rng, tier):
     quick = tier == "quick"
     out, tail = [], []
@@ -556,7 +640,9 @@ def gen(rng, tier):
         cap[c] = cap.get(c, 0) + 1
         if cap[c] <= (12 if quick else 40) or c in ("witness:" + CLS_WRAP, "witness:" + CLS_ERRNO):
             kept.append((l, m))
-    return out + kept
+    # the enumerated block goes last: it consumes no random numbers, and on a regression the named
+    # witness lines above are all judged before any of its lines can abort the driver
+    return out + kept + small_scope(tier)
 
 
 def shrink(ck, line, cls):
